@@ -68,6 +68,8 @@ func runC05(p *Program, r *Report) {
 	checkJpegFields(p, r)
 	checkJpegMarkerTable(p, r)
 	checkFormatConst(p, r)
+	rd1Scan(p, r, "C05.fullread")
+	r.Floor("C05.fullread", 1)
 	r.Floor("C05.fields", 15)
 	r.Floor("C05.guards", 6)
 	r.Floor("C05.dispatch", 35)
